@@ -14,6 +14,8 @@ import (
 	"github.com/openebs/jiva/util"
 	"github.com/openebs/jiva/verifshim/vs"
 	"github.com/openebs/sparse-tools/sparse"
+
+	"verif/harness/ea"
 )
 
 // C01Cfg is one configuration of the replica linearizability harness (parts C01conc / C06conc / C12conc): ONE real on-disk
@@ -116,6 +118,21 @@ func (x *c01Inst) calls(k int, op string) []func() string {
 				return "Rm.remove:ok"
 			},
 		}
+	case op == "CloneSt":
+		// what app/replica.go does around a clone: straight on the Replica, not through the Server lock.  Only paired with
+		// operations that keep the Replica instance: a pointer fetched before a Revert/Reload refers to the superseded
+		// instance afterwards (observation in DESIGN 9.7; the clone bracket runs when no revert/reload can arrive)
+		return []func() string{func() string {
+			r := s.Replica()
+			if r == nil {
+				return op + ":closed"
+			}
+			return op + ":" + e(r.SetCloneStatus("completed"))
+		}}
+	case op == "Rebuilding":
+		return []func() string{func() string { return op + ":" + e(s.SetRebuilding(true)) }}
+	case op == "Checkpoint":
+		return []func() string{func() string { return op + ":" + e(s.SetCheckpoint("volume-snap-a4.img")) }}
 	case op == "RmRaw":
 		// the unlink step alone, as a REST removedisk request would issue it
 		return []func() string{func() string { return op + ":" + e(s.RemoveDiffDisk("volume-snap-a2.img")) }}
@@ -199,6 +216,7 @@ func (x *c01Inst) state() string {
 	mode := replica.VerifEdMode(r)
 	rev := r.GetRevisionCounter()
 	files := x.files()
+	death := x.afterDeath()
 	// the whole volume accepts writes: probe the last block (the final act on this replica)
 	probe := "probe-write-last-block:skipped"
 	if mode == "RW" || mode == "WO" {
@@ -221,8 +239,36 @@ func (x *c01Inst) state() string {
 			probe = "probe-write-last-block:" + c01Tags(pb)
 		}()
 	}
-	return fmt.Sprintf("%sstate=%s mode=%s size=%d rev=%d chain=%s live=[%s] %s %s", closed, st, mode, size, rev,
-		c01HeadRe.ReplaceAllString(strings.Join(chain, ">"), "HEAD"), live, files, probe)
+	return fmt.Sprintf("%sstate=%s mode=%s size=%d rev=%d chain=%s live=[%s] %s %s %s", closed, st, mode, size, rev,
+		c01HeadRe.ReplaceAllString(strings.Join(chain, ">"), "HEAD"), live, files, death, probe)
+}
+
+// afterDeath: what a process death right now would leave - the directory is copied as it is (holes preserved) and the
+// copy is opened by the real code.
+func (x *c01Inst) afterDeath() string {
+	cp := x.dir + "-death"
+	defer os.RemoveAll(cp)
+	if err := ea.CopyDir(x.dir, cp); err != nil {
+		return "after-death: copy failed: " + strings.ReplaceAll(err.Error(), x.dir, "<dir>")
+	}
+	s2 := replica.NewServer("127.0.0.1:9602", cp, 512, "")
+	if err := s2.Open(); err != nil {
+		return "after-death: OPEN FAILS: " + strings.ReplaceAll(err.Error(), cp, "<dir>")
+	}
+	defer replica.VerifEdCloseFiles(s2.Replica())
+	chain, err := s2.Replica().Chain()
+	if err != nil {
+		return "after-death: chain error: " + strings.ReplaceAll(err.Error(), cp, "<dir>")
+	}
+	inf := s2.Replica().Info()
+	buf := make([]byte, inf.Size)
+	live := ""
+	if _, err := s2.ReadAt(buf, 0); err != nil {
+		live = "READ-ERROR"
+	} else {
+		live = c01Tags(buf)
+	}
+	return fmt.Sprintf("after-death{size=%d reb=%v chain=%s live=[%s]}", inf.Size, inf.Rebuilding, c01HeadRe.ReplaceAllString(strings.Join(chain, ">"), "HEAD"), live)
 }
 
 func (x *c01Inst) files() string {
@@ -532,7 +578,8 @@ func c01Configs(part, tier string) []C01Cfg {
 	case "C12conc":
 		// management operations against each other
 		for _, p := range [][]string{{"Snap", "Snap"}, {"Snap", "Resize"}, {"Rm", "Resize"}, {"Rm", "Reload"}, {"Rm", "Rm"}, {"Revert", "Resize"}, {"Revert", "Revert"},
-			{"Reload", "Resize"}, {"ULM", "Resize"}, {"Close", "Snap"}, {"Close", "Rm"}, {"Close", "Revert"}, {"Close", "Reload"}, {"ModeWO", "Rm"}, {"ModeWO", "SetRev"}, {"Close", "Close"}, {"Snap", "SetRev"}} {
+			{"Reload", "Resize"}, {"ULM", "Resize"}, {"Close", "Snap"}, {"Close", "Rm"}, {"Close", "Revert"}, {"Close", "Reload"}, {"ModeWO", "Rm"}, {"ModeWO", "SetRev"}, {"Close", "Close"}, {"Snap", "SetRev"},
+			{"CloneSt", "Snap"}, {"CloneSt", "Resize"}, {"CloneSt", "Rebuilding"}, {"CloneSt", "Checkpoint"}, {"Rebuilding", "Snap"}, {"Checkpoint", "Snap"}, {"Rebuilding", "Checkpoint"}, {"Checkpoint", "Rm"}} {
 			add(p...)
 		}
 		if tier == "thorough" {
